@@ -1099,12 +1099,14 @@ func runSlotMax(c *Ctx, r *Reporter) {
 	}
 	sf := p.SSAFunc(fd.Obj)
 	var store *ssa.Store
+	var stores []*ssa.Store
 	for _, b := range sf.Blocks {
 		for _, ins := range b.Instrs {
 			if st, ok := ins.(*ssa.Store); ok {
 				if fa, ok := st.Addr.(*ssa.FieldAddr); ok {
 					if _, name := fieldAddrInfo(fa); name == "nestedMaxIndex" {
 						store = st
+						stores = append(stores, st)
 					}
 				}
 			}
@@ -1156,33 +1158,37 @@ func runSlotMax(c *Ctx, r *Reporter) {
 			walk(x.X, depth-1)
 		}
 	}
-	walk(store.Val, 8)
+	for _, st := range stores {
+		walk(st.Val, 8)
+	}
 	// a hand-written maximum may store conditionally: `if used > outer.nestedMaxIndex { outer.nestedMaxIndex = used }`.
 	// The comparison the store depends on belongs to the computation, and where it compares the stored value with the
 	// old value of the stored field, skipping the store keeps the larger old value: the test then stands for the store.
-	var maxGuard *ssa.If
-	for _, f := range impliedConds(store.Block()) {
-		walk(f.Cond, 8)
-		bo, ok := f.Cond.(*ssa.BinOp)
-		if !ok {
-			continue
-		}
-		isOld := func(v ssa.Value) bool {
-			u, ok := v.(*ssa.UnOp)
+	maxGuards := map[*ssa.Store]*ssa.If{}
+	for _, store := range stores {
+		for _, f := range impliedConds(store.Block()) {
+			walk(f.Cond, 8)
+			bo, ok := f.Cond.(*ssa.BinOp)
 			if !ok {
-				return false
+				continue
 			}
-			fa, ok := u.X.(*ssa.FieldAddr)
-			sa, ok2 := store.Addr.(*ssa.FieldAddr)
-			return ok && ok2 && fa.Field == sa.Field && fa.X == sa.X
-		}
-		larger := (bo.X == store.Val && isOld(bo.Y) && ((bo.Op == token.GTR && f.Truth) || (bo.Op == token.LEQ && !f.Truth))) ||
-			(bo.Y == store.Val && isOld(bo.X) && ((bo.Op == token.LSS && f.Truth) || (bo.Op == token.GEQ && !f.Truth)))
-		if larger {
-			if refs := bo.Referrers(); refs != nil {
-				for _, ref := range *refs {
-					if ifi, ok := ref.(*ssa.If); ok {
-						maxGuard = ifi
+			isOld := func(v ssa.Value) bool {
+				u, ok := v.(*ssa.UnOp)
+				if !ok {
+					return false
+				}
+				fa, ok := u.X.(*ssa.FieldAddr)
+				sa, ok2 := store.Addr.(*ssa.FieldAddr)
+				return ok && ok2 && fa.Field == sa.Field && fa.X == sa.X
+			}
+			larger := (sameLoadOrValue(bo.X, store.Val) && isOld(bo.Y) && ((bo.Op == token.GTR && f.Truth) || (bo.Op == token.LEQ && !f.Truth))) ||
+				(sameLoadOrValue(bo.Y, store.Val) && isOld(bo.X) && ((bo.Op == token.LSS && f.Truth) || (bo.Op == token.GEQ && !f.Truth)))
+			if larger {
+				if refs := bo.Referrers(); refs != nil {
+					for _, ref := range *refs {
+						if ifi, ok := ref.(*ssa.If); ok {
+							maxGuards[store] = ifi
+						}
 					}
 				}
 			}
@@ -1201,8 +1207,10 @@ func runSlotMax(c *Ctx, r *Reporter) {
 		if ret.Results[0] == ssa.Value(sf.Params[0]) {
 			continue
 		}
-		if !instrDominates(store, ret) && !(maxGuard != nil && instrDominates(maxGuard, ret)) {
-			early = p.Rel(instrPos(ret))
+		for _, st := range stores {
+			if !instrDominates(st, ret) && !(maxGuards[st] != nil && instrDominates(maxGuards[st], ret)) {
+				early = p.Rel(instrPos(ret))
+			}
 		}
 	}
 	r.Check(early == "", fd.QName()+"#propagates-on-every-path", p.Rel(instrPos(store)), "every return of the outer table follows the propagation of the slot requirement",
@@ -1403,4 +1411,19 @@ func symbolStoreDiscipline(p *Program, pkg *packages.Package, r *Reporter) {
 		r.Viol("pkg/bytecode.(*SymbolTable).Define#symbol-store-write", "", "Define does not record the symbol in the table")
 	}
 	_ = n
+}
+
+// sameLoadOrValue: the same SSA value, or two loads of the same field of the same object (s.index read twice).
+func sameLoadOrValue(a, b ssa.Value) bool {
+	if a == b {
+		return true
+	}
+	ua, ok1 := a.(*ssa.UnOp)
+	ub, ok2 := b.(*ssa.UnOp)
+	if !ok1 || !ok2 {
+		return false
+	}
+	fa, ok1 := ua.X.(*ssa.FieldAddr)
+	fb, ok2 := ub.X.(*ssa.FieldAddr)
+	return ok1 && ok2 && fa.Field == fb.Field && fa.X == fb.X
 }
